@@ -420,6 +420,23 @@ def run(ctx: Ctx) -> int:
     ok = {"typing._TypedDictMeta", "typing_extensions._TypedDictMeta"} <= metas
     ctx.oblige("C02.g", ok, gto, "TypedDict classes of both providers (typing, typing_extensions) are recognised as mappings" if ok else f"get_typehint_origin recognises only {sorted(metas)}: a TypedDict from the other provider is treated as an ordinary class and every conforming dict is rejected", fn=gto, construct="TypedDict metaclasses")
 
+    # ---------------- C02.h: after an order-insensitive Optional test no member is taken by position --------------------
+    # is_optional(T, X) holds for Union[X, None] AND Union[None, X]; code under that guard that reads T.__args__[0] gets
+    # NoneType for the second spelling (Union[None, Color]: AttributeError at add_argument, while Optional[Color] works)
+    n_opt = 0
+    for fq_, fn_ in ctx.repo.all_funcs():
+        for sub in [x for x in ast.walk(fn_) if isinstance(x, ast.Subscript) and isinstance(x.value, ast.Attribute) and x.value.attr == "__args__" and isinstance(x.slice, ast.Constant) and isinstance(x.slice.value, int)]:
+            subj = ast.unparse(x.value.value) if (x := sub) is not None else ""
+            from .util import guard_atoms as _ga2
+
+            under = [t for t, pol in _ga2(sub, stop=fn_) if pol and isinstance(t, ast.Call) and call_leaf(t) == "is_optional" and t.args and ast.unparse(t.args[0]) == subj]
+            if under:
+                n_opt += 1
+                ctx.oblige("C02.h", False, sub, f"`{ast.unparse(sub)}` picks a Union member by position under `{ast.unparse(under[0])}`, which holds for both member orders: for Union[None, X] the member picked is NoneType - the declaration fails (or the wrong member is used) for one spelling of the same type", fn=fn_)
+    io_ = ctx.func("_typehints:is_optional")
+    order_free = any(isinstance(c, ast.Call) and call_leaf(c) == "any" for c in ast.walk(io_)) and not any(isinstance(x, ast.Subscript) and isinstance(x.value, ast.Attribute) and x.value.attr == "__args__" and isinstance(x.slice, ast.Constant) for x in ast.walk(io_))
+    ctx.oblige("C02.h", order_free, io_, "is_optional does not depend on the position of None among the members" if order_free else "is_optional reads a Union member by position", fn=io_, construct="is_optional order-free")
+
     return ctx.finish(
         explanation=(
             "(a) The Union arm of adapt_typehints is abstracted to a finite automaton over per-iteration symbols V (member accepted, break), O (string fallback appended), "
